@@ -29,6 +29,7 @@ from refurb.checks.common import (
     is_sized,
     mypy_type_to_python_type,
     stringify,
+    stringify_operand,
 )
 from refurb.error import Error
 from refurb.visitor import METHOD_NODE_MAPPINGS, TraverserVisitor
@@ -139,7 +140,7 @@ class LenComparisonVisitor(TraverserVisitor):
                 new = stringify(arg)
 
                 if not is_truthy:
-                    new = f"not {new}"
+                    new = f"not {stringify_operand(arg, 'not')}"
 
                 msg = f"Replace `{old}` with `{new}`"
 
@@ -164,7 +165,7 @@ class LenComparisonVisitor(TraverserVisitor):
                 new = stringify(lhs)
 
                 if oper == "==":
-                    new = f"not {new}"
+                    new = f"not {stringify_operand(lhs, 'not')}"
 
                 msg = f"Replace `{old}` with `{new}`"
 
